@@ -424,6 +424,11 @@ func (p *parser) validateBinaryType(binaryExp *BinaryExpression) bool {
 			msg := fmt.Sprintf("%q takes bool type, found %s", op, leftType)
 			p.appendErrorForToken(msg, tok)
 		}
+	case OP_EQ, OP_NOT_EQ:
+		if leftType == NONE_TYPE {
+			msg := fmt.Sprintf("%q takes operands with a value, found %s", op, leftType)
+			p.appendErrorForToken(msg, tok)
+		}
 	}
 	return len(p.errors) == errCount
 }
